@@ -368,10 +368,16 @@ func (c *Ctx) reasonCodeSlots(rule string) {
 		// loop ranges over pk.Filters: the element load in the body indexes pk.Filters by the loop index
 		idxOK := false
 		var idx ssa.Value
-		for _, ins := range body.Instrs {
-			if ia, ok := ins.(*ssa.IndexAddr); ok && describe(ia.X) == "pk.Filters" {
-				idxOK = true
-				idx = ia.Index
+		// (anywhere in the loop body: an element may be read after an early `continue`)
+		for _, bb := range f.Blocks {
+			if bb != body && !body.Dominates(bb) {
+				continue
+			}
+			for _, ins := range bb.Instrs {
+				if ia, ok := ins.(*ssa.IndexAddr); ok && describe(ia.X) == "pk.Filters" && !idxOK {
+					idxOK = true
+					idx = ia.Index
+				}
 			}
 		}
 		c.ob(rule, fname(f)+": the per-filter loop ranges over the request's pk.Filters", c.pos(body.Instrs[0].Pos()), idxOK, "")
